@@ -21,3 +21,9 @@ open Pcore.Immut
 #print axioms C08_resolve_history_free
 #print axioms C08_resolve_impl
 #print axioms C08_resolve_memo_breaks
+open Pcore.Mut
+#print axioms C08_mutable_results_partial
+#print axioms C08_mutable_alias_sites
+#print axioms C08_mutable_alias_changes
+#print axioms C08_mutable_alias_refutes
+#print axioms C08_mutable_frozen_immutable
